@@ -171,3 +171,44 @@ def rational_limit(c, df, dg):
                            for m in range(n)]))
     else:
         c.ensures('AssertionError-only-for-g-identically-zero', ops.And(out.exc == 'AssertionError', g_zero))
+
+
+@contract('C19', 'bezier.split_bezier', params=[{'deg': d, '_bounded_only': True} for d in range(1, 9)])
+def split_and_halve_on_integer_control_points_sampled(c, deg):
+    """bounded stand-in: the deductive split_bezier / halve_bezier contracts take the control
+    points as reals, which is what they are mathematically - but a Python caller may pass ints,
+    and an implementation that stores intermediate points in an array typed after its input
+    truncates them.  Control points drawn as Python ints (real and Gaussian integers), t as a
+    dyadic fraction, compared with de Casteljau in exact rational arithmetic."""
+    from fractions import Fraction
+    import svgpathtools.bezier as sb
+    gauss = c.bool('gaussian')
+    P = []
+    for i in range(deg + 1):
+        re = int(c.real('p%d.re' % i) * 20) % 41 - 20
+        im = int(c.real('p%d.im' % i) * 20) % 41 - 20
+        P.append(complex(re, im) if gauss else re)
+    t = Fraction(1 + int(abs(c.real('t')) * 64) % 63, 64)
+
+    def exact(z):
+        return (Fraction(int(z.real)), Fraction(int(z.imag)))
+
+    def casteljau(pts, t):
+        left, right = [pts[0]], [pts[-1]]
+        while len(pts) > 1:
+            pts = [((1 - t) * a[0] + t * b[0], (1 - t) * a[1] + t * b[1]) for a, b in zip(pts, pts[1:])]
+            left.append(pts[0])
+            right.append(pts[-1])
+        return left, right[::-1]
+
+    def close(got, want):
+        return len(got) == len(want) and all(abs(complex(g) - complex(float(w[0]), float(w[1]))) <= 1e-9 for g, w in zip(got, want))
+    wl, wr = casteljau([exact(complex(z)) for z in P], t)
+    gl, gr = sb.split_bezier(list(P), float(t))
+    c.ensures('split_bezier(ints,t):left-piece', close(gl, wl))
+    c.ensures('split_bezier(ints,t):right-piece', close(gr, wr))
+    c.ensures('split_bezier(ints,t):the-argument-is-not-modified', list(P) == P)
+    wl, wr = casteljau([exact(complex(z)) for z in P], Fraction(1, 2))
+    gl, gr = sb.halve_bezier(list(P))
+    c.ensures('halve_bezier(ints):left-piece', close(gl, wl))
+    c.ensures('halve_bezier(ints):right-piece', close(gr, wr))
